@@ -89,7 +89,7 @@ def gen_xapp(rng, i):
 
 def generate(rng, tier):
     big = tier == 'thorough'
-    n = 6000 if big else 360
+    n = 6000 if big else 300
     cases = []
     # smallest witnesses first
     cases.append({'kind': 'twin', 'pub': 's', 'geom': [1024, 128, 0, 0, 0], 'pre': [['l', 100000]], 'k': 1, 'parts': [4]})
